@@ -269,3 +269,47 @@ package raft
 //@   modifies rpos, all(resp)
 //@   ensures [C18.appendresp-dec] result0 == nil && resp.result != unexpectedErr ==> Consumed(r, 17) && EncResp(rdata[ref(r)], old(rpos[ref(r)]), resp) && gword(rdata[ref(r)], old(rpos[ref(r)]) + 9) == resp.lastLogIndex
 //@   ensures [C18.dec-frame] ConsumedSome(r)
+
+// ---- admin task responses (error kinds) ----------------------------------------------------
+// io errors are not errors of this module (T-std)
+//@ view io.ReadFull at decodeTaskResp
+//@   modifies rpos, contents(buf)
+//@   ensures ConsumedSome(r)
+//@   ensures result1 != nil ==> isexternal(result1)
+
+// STUBS: structured payloads of task responses (their byte-level contracts are not written yet)
+//@ func (*Node).decode
+//@   trusted
+//@   modifies rpos, all(n)
+//@   ensures ConsumedSome(r) && (result0 != nil ==> isexternal(result0))
+//@ func (*Info).decode
+//@   trusted
+//@   modifies rpos, all(info)
+//@   ensures ConsumedSome(r) && (result0 != nil ==> isexternal(result0))
+//@ view (*entry).decode at decodeTaskResp
+//@   modifies rpos, all(e)
+//@   ensures ConsumedSome(r) && (result0 != nil ==> isexternal(result0))
+//@ view readString at decodeTaskResp
+//@   modifies rpos
+//@   ensures ConsumedSome(r) && (result1 != nil ==> isexternal(result1))
+//@ view readBool at decodeTaskResp
+//@   modifies rpos
+//@   ensures ConsumedSome(r) && (result1 != nil ==> isexternal(result1))
+//@ view readUint64 at decodeTaskResp
+//@   modifies rpos
+//@   ensures ConsumedSome(r) && (result1 != nil ==> isexternal(result1))
+//@ view (*Config).decode at decodeTaskResp
+//@   modifies all(c)
+//@   ensures result0 != nil ==> isexternal(result0)
+
+// the kind of a remote error is preserved: a client can recognise not-leader, in-progress,
+// sentinel (plainError) and not-ready (temporaryError) errors after the wire
+//@ func decodeTaskResp
+//@   requires r != nil
+//@   modifies rpos
+//@   ensures [C18.taskresp-not-leader] errType == "raft.NotLeaderError" && result1 != nil && !isexternal(result1) ==> istype(result1, NotLeaderError)
+//@   ensures [C18.taskresp-plain] errType == "raft.plainError" && result1 != nil && !isexternal(result1) ==> istype(result1, plainError)
+//@   ensures [C18.taskresp-temporary] errType == "raft.temporaryError" && result1 != nil && !isexternal(result1) ==> istype(result1, temporaryError)
+//@   ensures [C18.taskresp-in-progress] errType == "raft.InProgressError" && result1 != nil && !isexternal(result1) ==> istype(result1, InProgressError)
+//@   ensures [C18.taskresp-error-means-error] errType != "" ==> result1 != nil && result0 == nil
+//@   ensures [C18.dec-frame] ConsumedSome(r)
